@@ -10,6 +10,7 @@ from typing import Any
 from harness.common import Ck
 from translate import c04_formulas as tr
 from translate import c04_inverse as tri
+from translate import c04_rounded as trr
 
 MANIFEST = dict(
     technique='Rocq proof over R (ring/field/nsatz/nra) on formulas, a dispatch table and a Gauss-Jordan row-operation '
@@ -50,6 +51,7 @@ DISP_IMPORTS = ['Coq.Lists.List', 'Coq.Bool.Bool', 'SV.Rot.RotDispatch', 'SV.Gen
 REIFY_IMPORTS = ['Coq.Lists.List', 'Coq.Bool.Bool', 'SV.Rot.RotReify', 'SV.Gen.RotReified_gen']
 GJ_IMPORTS = ['Coq.Lists.List', 'Coq.Bool.Bool', 'SV.Rot.RotGJ', 'SV.Gen.RotInverse_gen']
 GJT_IMPORTS = ['Coq.Lists.List', 'Coq.Bool.Bool', 'Coq.QArith.QArith', 'SV.Rot.RotGJ', 'SV.Rot.RotGJTotal', 'SV.Gen.RotInverse_gen']
+ROUND_IMPORTS = ['Coq.Lists.List', 'Coq.Bool.Bool', 'Coq.QArith.QArith', 'SV.Rot.RotRound', 'SV.Gen.RotRounded_gen']
 TOL = 1e-9
 GIMBAL = 0.001
 
@@ -856,11 +858,58 @@ def theorems_with_axioms(ck: Ck, props_file: str = 'Props/C04.v') -> None:
         ck.obligation(f'theorem:{n}', True, 'Qed; axioms: ' + ('none (closed under the global context)' if not b else
                       ('within (union over Props/C04.v; per theorem in the thorough tier): ' if union_only else '') + ', '.join(b)))
     allowed = {'ClassicalDedekindReals.sig_forall_dec', 'ClassicalDedekindReals.sig_not_dec',
-               'FunctionalExtensionality.functional_extensionality_dep'}
+               'FunctionalExtensionality.functional_extensionality_dep',
+               'Classical_Prop.classic'}      # Flocq (rounding theorems only)
     used = {a for b in blocks for a in b}
     ck.obligation('assumptions:only-classical-reals', used <= allowed,
                   'axioms used by Props/C04.v: ' + (', '.join(sorted(used)) or 'none') +
                   ('' if used <= allowed else ' -- UNEXPECTED: ' + ', '.join(sorted(used - allowed))))
+
+
+def corr_rounding(ck: Ck) -> None:
+    """The rounding model of Rot/RotRound.v against CPython floats: every tree of _vec_rot / _mat_mul evaluated with exact
+    rationals and a correctly rounded conversion to binary64 after each + - * (= fe_fl rnd64) must give the bits the float
+    evaluation of the same tree gives (which `correspondence:formulas` compares with the implementation), and the distance to
+    the exact rational value must respect the bound of the running error analysis (recomputed here with the same recurrences)."""
+    from fractions import Fraction
+    from srctools.math import Matrix
+    T = trr.trees()
+    n = ck.budget(150, 1500)
+    bad: list[dict] = []
+    worst = Fraction(0)
+    for i in range(n):
+        rng = ck.rng
+        (p, y, r), _ = gen_angle(rng)
+        (p2, y2, r2), _ = gen_angle(rng)
+        A, B = list(snapshot(Matrix.from_angle(p, y, r))), list(snapshot(Matrix.from_angle(p2, y2, r2)))
+        if rng.random() < 0.3:
+            A = rand_mat_vals(rng, 'A')
+        v = gen_vec(rng)
+        fenv = {**env_mat('s', A), **env_mat('o', B), 'v.x': v[0], 'v.y': v[1], 'v.z': v[2]}
+        qenv = {k: Fraction(x) for k, x in fenv.items()}
+        benv = {k: abs(x) for k, x in qenv.items()}
+        for nm, irs in T.items():
+            for k, ir in enumerate(irs):
+                ck.count('rounding_model_evaluations')
+                fl = tr.py_eval(ir, fenv)
+                model = trr.rounded_eval(ir, qenv)
+                exact = trr.exact_eval(ir, qenv)
+                _, bound = trr.err_bound(ir, benv)
+                if bound > 0:
+                    worst = max(worst, abs(model - exact) / bound)
+                if (bits(float(model)) != bits(fl) and not (model == 0 and fl == 0)) or abs(model - exact) > bound:
+                    if len(bad) < 5:
+                        bad.append({'formula': nm, 'entry': k, 'inputs': fenv, 'float': fl, 'rounding_model': float(model),
+                                    'error': float(abs(model - exact)), 'bound': float(bound)})
+        ck.seen(('rounding', tuple(A), tuple(B), v))
+    ck.extra['rounding_worst_error_over_bound'] = float(worst)
+    ck.obligation('correspondence:rounding-model', not bad,
+                  f'{n} input sets x 12 trees: exact-rational evaluation with a correctly rounded binary64 conversion after every '
+                  f'+ - * (fe_fl rnd64) vs CPython float evaluation bit for bit, and |rounded - exact| <= fe_err: {len(bad)}+ '
+                  f'disagreements; largest observed error / bound = {float(worst):.3f}')
+    if bad:
+        ck.tie_broken.append('correspondence rounding model (fe_fl rnd64 vs CPython floats)')
+        ck.extra['rounding_disagreements'] = bad
 
 
 # =============================================================================================== main
@@ -898,12 +947,14 @@ def run(ck: Ck) -> None:
     ok_d = ck.translate('RotDispatch_gen', tr.translate_dispatch)
     ok_i = ck.translate('RotInverse_gen', tri.translate_inverse)
     ok_r = ok_f and ck.translate('RotReified_gen', tr.translate_reified)
+    ok_rr = ok_f and ck.translate('RotRounded_gen', trr.translate_rounded)
     A = tr.analyse() if (ok_f and ok_d) else None
     built = False
     # 1. models and generated objects (definitions only: these compile whatever the source computes)
-    models = ck.build(['Rot/RotGJ.vo', 'Rot/RotGJTotal.vo', 'Rot/RotGJFloat.vo', 'Rot/RotDispatch.vo', 'Rot/RotReify.vo']
+    models = ck.build(['Rot/RotGJ.vo', 'Rot/RotGJTotal.vo', 'Rot/RotGJFloat.vo', 'Rot/RotDispatch.vo', 'Rot/RotReify.vo', 'Rot/RotRound.vo']
                       + (['Gen/RotFormulas_gen.vo', 'Gen/RotDispatch_gen.vo'] if A is not None else [])
                       + (['Gen/RotReified_gen.vo'] if ok_r else [])
+                      + (['Gen/RotRounded_gen.vo'] if ok_rr else [])
                       + (['Gen/RotInverse_gen.vo'] if ok_i else []))
     # 2. instance obligations: the generated objects are accepted by the decidable tests of the generic theorems
     if A is not None and models:
@@ -931,6 +982,17 @@ def run(ck: Ck) -> None:
             'mat_mul_alias_row_c': 'alias_row_ok 2 mat_mul_self_polys mat_mul_ss_polys',
             'mat_mul_alias_safe': 'polys_eqb mat_mul_self_polys mat_mul_ss_polys',
         }, name='reify')
+    if ok_rr and models:
+        # "up to rounding", quantified: the running error analysis (Rot/RotRound.v, sound for every tree and every rounding with
+        # |rnd t - t| <= u|t| + eta, binary64 via Flocq) accepts today's trees of _vec_rot / _mat_mul with these bounds
+        ck.instance_obligations(ROUND_IMPORTS, {
+            'vec_rot_rounding_error_below_2e-15_for_unit_inputs':
+                'errs_within (1000001 # 1000000) 1 (2 # 1000000000000000) vec_rot_fe',
+            'vec_rot_rounding_error_below_2e-9_for_components_up_to_1e6':
+                'errs_within (1000001 # 1000000) 1000000 (2 # 1000000000) vec_rot_fe',
+            'mat_mul_rounding_error_below_2e-15_on_rotations': 'errs_within (1000001 # 1000000) 0 (2 # 1000000000000000) mat_mul_fe',
+            'rounded_trees_are_float_computations': 'forallb (fun e => Nat.ltb 0 (fe_ops e)) (vec_rot_fe ++ mat_mul_fe)',
+        }, name='round')
     if ok_i and models:
         # gj_prog_ok: what inverse() returns when it returns; gj_total_ok (Rot/RotGJTotal.v, interval / determinant abstract
         # interpretation): it RETURNS on every rotation
@@ -956,7 +1018,8 @@ def run(ck: Ck) -> None:
     # 3. the proofs about the generated formulas
     if A is not None and models:
         core = ck.build(['Rot/RotAlgebra.vo', 'Rot/RotAliasProofs.vo', 'Rot/RotEulerProofs.vo', 'Rot/RotDispatchProofs.vo',
-                         'Rot/RotGJProofs.vo', 'Rot/RotGJTotalProofs.vo', 'Rot/RotGJExample.vo'] + (['Rot/RotReifyProofs.vo'] if ok_r else []))
+                         'Rot/RotGJProofs.vo', 'Rot/RotGJTotalProofs.vo', 'Rot/RotGJExample.vo'] + (['Rot/RotReifyProofs.vo'] if ok_r else [])
+                        + (['Rot/RotRoundProofs.vo', 'Rot/RotRoundFlocq.vo', 'Rot/RotRoundTied.vo'] if ok_rr else []))
         built = core and ck.build(['Props/C04.vo'])
         if built:
             theorems_with_axioms(ck)
@@ -966,6 +1029,8 @@ def run(ck: Ck) -> None:
         corr_dispatch(ck, A['F'], A['rows'])
     if ok_i and models:
         corr_inverse(ck)
+    if ok_rr:
+        corr_rounding(ck)
     found: dict[str, tuple[str, dict]] = {}
     search_operands(ck, found)
     search_identities(ck, found)
